@@ -91,6 +91,13 @@ def main(argv):
         changed = common.regenerate()
         if changed:
             ctx.notes.append("generated files changed: %s" % changed)
+        try:
+            stp = os.path.join(common.LEAN, "ZbossModel", "Generated", "exprs_status.json")
+            lost = [k for k, v in json.load(open(stp)).items() if not v.get("located")]
+            if lost:
+                ctx.notes.append("source expressions not located by translator 4 (pinned default used, tie = differential only): %s" % lost)
+        except Exception:
+            pass
     except Infra:
         raise
     except Exception as ex:  # the repo no longer exposes what the translator reads
